@@ -724,315 +724,6 @@ theorem container_cross_tape_rejected (a b : Cont R) (w : World R) (h h' : Nat)
 example : (⟨[("r", 1), ("c", 1)], [((2 : ℚ), 0)], some 0⟩ : Cont ℚ).history = some 0 ∧ (0 : ℕ) ≠ 1 :=
   ⟨rfl, by decide⟩
 
-/-! ## Shapes and histories through whole programs
-
-What the generator sections "assign forms × pairings × follow-up uses" and "producer → consumer
-pairs" sample, for every program: a container that is the result of any sequence of operations
-— allocating, in place, multiplications, `reset` — is the same container (shape, numbers, tape,
-positions) as the one built element by element, so whatever consumes it next sees the same
-operand. -/
-
-/-- After a two-operand assign form (`binary_left_assign`, `binary_right_assign`, the `do_*`
-    variants) the overwritten container is on a tape exactly when either operand was, and on that
-    operand's tape (the left one's if both were — they are then the same); the one-operand assign
-    form keeps the history.  Shapes are untouched. -/
-theorem assign_history (op : BOp R) (a b c' : Cont R) (w w' : World R) (ha : a.WF) (hb : b.WF) :
-    (a.binaryLeftAssign b op.fns.1 op.fns.2.1 op.fns.2.2 w = .ok (c', w') →
-        c'.history = Cont.pickHistory a.history b.history ∧ c'.shape = a.shape
-          ∧ (c'.history.isSome ↔ (a.history.isSome ∨ b.history.isSome)))
-      ∧ (a.binaryRightAssign b op.fns.1 op.fns.2.1 op.fns.2.2 w = .ok (c', w') →
-        c'.history = Cont.pickHistory a.history b.history ∧ c'.shape = b.shape
-          ∧ (c'.history.isSome ↔ (a.history.isSome ∨ b.history.isSome)))
-      ∧ (∀ (u : UOp R), ((a.unaryAssign u.fns.1 u.fns.2 w).1.history = a.history
-          ∧ (a.unaryAssign u.fns.1 u.fns.2 w).1.shape = a.shape)) := by
-  have hpick : ∀ x y : Option Nat,
-      ((Cont.pickHistory x y).isSome ↔ (x.isSome ∨ y.isSome)) := by
-    intro x y; cases x <;> cases y <;> simp [Cont.pickHistory]
-  refine ⟨?_, ?_, ?_⟩
-  · intro h
-    rw [binaryLeftAssign_eq] at h
-    cases hbin : a.binary b op.fns.1 op.fns.2.1 op.fns.2.2 w with
-    | panic k => rw [hbin] at h; cases h
-    | ok r =>
-      obtain ⟨c0, w0⟩ := r
-      have hspec := binary_ok_spec a b _ _ _ w ha hb c0 w0 hbin
-      rw [hbin] at h
-      simp only [Outcome.map] at h
-      injection h with h; injection h with h1 _; subst h1
-      exact ⟨hspec.2.2.2, rfl, by simp only [hspec.2.2.2]; exact hpick _ _⟩
-  · intro h
-    rw [binaryRightAssign_eq] at h
-    cases hbin : a.binary b op.fns.1 op.fns.2.1 op.fns.2.2 w with
-    | panic k => rw [hbin] at h; cases h
-    | ok r =>
-      obtain ⟨c0, w0⟩ := r
-      have hspec := binary_ok_spec a b _ _ _ w ha hb c0 w0 hbin
-      rw [hbin] at h
-      simp only [Outcome.map] at h
-      injection h with h; injection h with h1 _; subst h1
-      exact ⟨hspec.2.2.2, rfl, by simp only [hspec.2.2.2]; exact hpick _ _⟩
-  · intro u
-    rw [unaryAssign_eq a _ _ w ha.const_zero]
-    exact ⟨(unary_shape a _ _ w).2, rfl⟩
-
-example : (Cont.pickHistory (none : Option Nat) (some 3)).isSome = true := by decide
-
-/-- One instruction of a container program — a constructor, an allocating operator, a
-    multiplication, `reset`, an assign form — run by the container code on well-formed
-    containers gives the containers (shape and records: numbers, tapes, positions), the tapes and
-    the panic that the same instruction gives element by element; and the containers stay well
-    formed. -/
-theorem history_step_eq_elementwise (i : CInstr R) (hv : i.Valid) (cs : List (Cont R)) (w : World R)
-    (hwf : AllWF cs) :
-    (i.stepModel cs w).map absState = i.stepSpec (cs.map Cont.abs) w
-      ∧ ∀ cs' w', i.stepModel cs w = .ok (cs', w') → AllWF cs' := by
-  cases i with
-  | vars h shape vals =>
-    obtain ⟨hlen, hne⟩ := hv
-    constructor
-    · have key := variables_eq h shape vals w hlen
-      simp only [asRecs, Prod.ext_iff] at key
-      simp only [CInstr.stepModel, CInstr.stepSpec, Outcome.map, absState, List.map_append,
-        List.map_cons, List.map_nil, Cont.abs, ← key.1, ← key.2]
-      simp [Cont.variables]
-    · intro cs' w' h
-      simp only [CInstr.stepModel] at h
-      injection h with h; injection h with h1 _; subst h1
-      exact allWF_append hwf (((container_wf w).1 shape vals hlen hne).2 h)
-  | consts shape vals =>
-    obtain ⟨hlen, hne⟩ := hv
-    constructor
-    · simp only [CInstr.stepModel, CInstr.stepSpec, Outcome.map, absState, List.map_append,
-        List.map_cons, List.map_nil, Cont.abs]
-      simp [Cont.constants, toRecs_eq, recsOf, Rec.constant, List.map_map, Function.comp_def]
-    · intro cs' w' h
-      simp only [CInstr.stepModel] at h
-      injection h with h; injection h with h1 _; subst h1
-      exact allWF_append hwf ((container_wf w).1 shape vals hlen hne).1
-  | un op a =>
-    simp only [CInstr.stepModel, CInstr.stepSpec, abs_get]
-    cases hc : cs[a]? with
-    | none => exact ⟨rfl, fun _ _ h => by cases h⟩
-    | some c =>
-      have hcw := allWF_get hwf a c hc
-      constructor
-      · have key := unary_eq c op.fns.1 op.fns.2 w
-        simp only [asRecs, Prod.ext_iff] at key
-        simp only [Option.map_some, Outcome.map, absState, List.map_append, List.map_cons,
-          List.map_nil, Cont.abs, uop_container_eq, uop_scalar_fun, ← key.1, ← key.2,
-          (unary_shape c op.fns.1 op.fns.2 w).1]
-      · intro cs' w' h
-        injection h with h; injection h with h1 _; subst h1
-        exact allWF_append hwf ((container_wf w).2.1 op c hcw)
-  | bin op a b =>
-    simp only [CInstr.stepModel, CInstr.stepSpec, abs_get]
-    cases hx : cs[a]? with
-    | none => exact ⟨rfl, fun _ _ h => by cases h⟩
-    | some x =>
-      cases hy : cs[b]? with
-      | none => exact ⟨rfl, fun _ _ h => by cases h⟩
-      | some y =>
-        have hxw := allWF_get hwf a x hx
-        have hyw := allWF_get hwf b y hy
-        simp only [Option.map_some, Cont.abs]
-        by_cases hs : x.shape = y.shape
-        · rw [if_neg (not_not.mpr hs)]
-          have key := binary_eq x y op.fns.1 op.fns.2.1 op.fns.2.2 w hs hxw.nonempty hyw.nonempty
-          rw [bop_container_eq, bop_scalar_fun]
-          cases hbin : x.binary y op.fns.1 op.fns.2.1 op.fns.2.2 w with
-          | panic k =>
-            rw [hbin] at key
-            simp only [Outcome.map] at key
-            rw [← key]
-            exact ⟨rfl, fun _ _ h => by cases h⟩
-          | ok r =>
-            obtain ⟨c0, w0⟩ := r
-            have hspec := binary_ok_spec x y _ _ _ w hxw hyw c0 w0 hbin
-            rw [hbin] at key
-            simp only [Outcome.map, asRecs] at key
-            rw [← key]
-            constructor
-            · simp [Outcome.map, absState, Cont.abs, hspec.2.2.1]
-            · intro cs' w' h
-              simp only [Outcome.map] at h
-              injection h with h; injection h with h1 _; subst h1
-              exact allWF_append hwf hspec.1
-        · rw [if_pos hs, bop_container_eq, binary_shape_mismatch x y _ _ _ w hs]
-          exact ⟨rfl, fun _ _ h => by cases h⟩
-  | matmulT a b =>
-    simp only [CInstr.stepModel, CInstr.stepSpec, abs_get]
-    cases hx : cs[a]? with
-    | none => exact ⟨rfl, fun _ _ h => by cases h⟩
-    | some x =>
-      cases hy : cs[b]? with
-      | none => exact ⟨rfl, fun _ _ h => by cases h⟩
-      | some y =>
-        have hxw := allWF_get hwf a x hx
-        have hyw := allWF_get hwf b y hy
-        simp only [Option.map_some]
-        rw [← matmulTensor_eq_spec x y w hxw hyw]
-        cases hm : x.matmulTensor y w with
-        | panic k => exact ⟨rfl, fun _ _ h => by cases h⟩
-        | ok r =>
-          obtain ⟨c0, w0⟩ := r
-          constructor
-          · simp [Outcome.map, absState]
-          · intro cs' w' h
-            simp only [Outcome.map] at h
-            injection h with h; injection h with h1 _; subst h1
-            exact allWF_append hwf ((container_wf_matmul x y c0 w w0 hxw hyw).1 hm)
-  | matmulM a b =>
-    simp only [CInstr.stepModel, CInstr.stepSpec, abs_get]
-    cases hx : cs[a]? with
-    | none => exact ⟨rfl, fun _ _ h => by cases h⟩
-    | some x =>
-      cases hy : cs[b]? with
-      | none => exact ⟨rfl, fun _ _ h => by cases h⟩
-      | some y =>
-        have hxw := allWF_get hwf a x hx
-        have hyw := allWF_get hwf b y hy
-        simp only [Option.map_some]
-        rw [← matmulMatrix_eq_spec x y w hxw hyw]
-        cases hm : x.matmulMatrix y w with
-        | panic k => exact ⟨rfl, fun _ _ h => by cases h⟩
-        | ok r =>
-          obtain ⟨c0, w0⟩ := r
-          constructor
-          · simp [Outcome.map, absState]
-          · intro cs' w' h
-            simp only [Outcome.map] at h
-            injection h with h; injection h with h1 _; subst h1
-            exact allWF_append hwf ((container_wf_matmul x y c0 w w0 hxw hyw).2 hm)
-  | reset a =>
-    simp only [CInstr.stepModel, CInstr.stepSpec, abs_get]
-    cases hc : cs[a]? with
-    | none => exact ⟨rfl, fun _ _ h => by cases h⟩
-    | some c =>
-      have hcw := allWF_get hwf a c hc
-      constructor
-      · have key := reset_eq c w hcw.length_eq
-        simp only [asRecs, Prod.ext_iff] at key
-        have hshape : (c.reset w).1.shape = c.shape := by
-          unfold Cont.reset; cases c.history <;> rfl
-        simp only [Option.map_some, Outcome.map, absState, List.map_set, Cont.abs, ← key.1,
-          ← key.2, hshape]
-      · intro cs' w' h
-        injection h with h; injection h with h1 _; subst h1
-        exact allWF_set hwf a (reset_wf c w hcw)
-  | unAssign op a =>
-    simp only [CInstr.stepModel, CInstr.stepSpec, abs_get]
-    cases hc : cs[a]? with
-    | none => exact ⟨rfl, fun _ _ h => by cases h⟩
-    | some c =>
-      have hcw := allWF_get hwf a c hc
-      constructor
-      · have key := unary_eq c op.fns.1 op.fns.2 w
-        simp only [asRecs, Prod.ext_iff] at key
-        simp only [Option.map_some]
-        rw [unaryAssign_eq c _ _ w hcw.const_zero]
-        simp only [Outcome.map, absState, List.map_set, Cont.abs,
-          uop_scalar_fun, ← key.1, ← key.2]
-        simp [toRecs_eq]
-      · intro cs' w' h
-        injection h with h; injection h with h1 _; subst h1
-        exact allWF_set hwf a (unaryAssign_wf c _ _ w hcw)
-  | leftAssign op a b =>
-    simp only [CInstr.stepModel, CInstr.stepSpec, abs_get]
-    cases hx : cs[a]? with
-    | none => exact ⟨rfl, fun _ _ h => by cases h⟩
-    | some x =>
-      cases hy : cs[b]? with
-      | none => exact ⟨rfl, fun _ _ h => by cases h⟩
-      | some y =>
-        have hxw := allWF_get hwf a x hx
-        have hyw := allWF_get hwf b y hy
-        simp only [Option.map_some, Cont.abs]
-        rw [binaryLeftAssign_eq]
-        by_cases hs : x.shape = y.shape
-        · rw [if_neg (not_not.mpr hs)]
-          have key := binary_eq x y op.fns.1 op.fns.2.1 op.fns.2.2 w hs hxw.nonempty hyw.nonempty
-          rw [bop_scalar_fun]
-          cases hbin : x.binary y op.fns.1 op.fns.2.1 op.fns.2.2 w with
-          | panic k =>
-            rw [hbin] at key
-            simp only [Outcome.map] at key
-            rw [← key]
-            exact ⟨rfl, fun _ _ h => by cases h⟩
-          | ok r =>
-            obtain ⟨c0, w0⟩ := r
-            have hspec := binary_ok_spec x y _ _ _ w hxw hyw c0 w0 hbin
-            rw [hbin] at key
-            simp only [Outcome.map, asRecs] at key
-            rw [← key]
-            constructor
-            · simp [Outcome.map, absState, Cont.abs, List.map_set, toRecs_eq]
-            · intro cs' w' h
-              simp only [Outcome.map] at h
-              injection h with h; injection h with h1 _; subst h1
-              refine allWF_set hwf a ⟨?_, hspec.1.nonempty, hspec.1.const_zero⟩
-              have := hspec.1.length_eq
-              rw [hspec.2.2.1] at this
-              exact this
-        · rw [if_pos hs, binary_shape_mismatch x y _ _ _ w hs]
-          exact ⟨rfl, fun _ _ h => by cases h⟩
-
-/-- **Histories through programs.**  Any program of container operations — constructors,
-    allocating operators, both multiplications, `reset`, the in-place forms, each consuming the
-    results of earlier ones — run on well-formed containers ends with the containers, tapes and
-    panic the same program ends with when every container is a list of scalar records and every
-    operation is done element by element.  In particular each result's history is `Some` exactly
-    when the element-by-element records are on a tape. -/
-theorem history_eq_elementwise (prog : List (CInstr R)) (hv : ∀ i ∈ prog, i.Valid)
-    (cs : List (Cont R)) (w : World R) (hwf : AllWF cs) :
-    (runModel prog cs w).map absState = runSpec prog (cs.map Cont.abs) w
-      ∧ ∀ cs' w', runModel prog cs w = .ok (cs', w') → AllWF cs' := by
-  induction prog generalizing cs w with
-  | nil =>
-    refine ⟨rfl, ?_⟩
-    intro cs' w' h
-    simp only [runModel] at h
-    injection h with h; injection h with h1 _; subst h1
-    exact hwf
-  | cons i rest ih =>
-    have hstep := history_step_eq_elementwise i (hv i (List.mem_cons_self ..)) cs w hwf
-    simp only [runModel, runSpec]
-    rw [← hstep.1]
-    cases hm : i.stepModel cs w with
-    | panic k => exact ⟨rfl, fun _ _ h => by cases h⟩
-    | ok r =>
-      obtain ⟨cs1, w1⟩ := r
-      simp only [Outcome.map, absState]
-      exact ih (fun j hj => hv j (List.mem_cons_of_mem _ hj)) cs1 w1 (hstep.2 cs1 w1 hm)
-
-/-- **Derivatives after programs.**  When a program of container operations succeeds, the same
-    program on scalar records succeeds with the same records and tapes, and `derivatives()` of
-    every container in the final state — results of allocating operations, of multiplications,
-    containers overwritten in place or `reset` — is the reverse sweep of its element-by-element
-    records on the final tapes. -/
-theorem program_derivatives_eq_elementwise (prog : List (CInstr R)) (hv : ∀ i ∈ prog, i.Valid)
-    (cs : List (Cont R)) (w : World R) (hwf : AllWF cs) (cs' : List (Cont R)) (w' : World R)
-    (hrun : runModel prog cs w = .ok (cs', w')) :
-    runSpec prog (cs.map Cont.abs) w = .ok (cs'.map Cont.abs, w')
-      ∧ ∀ c ∈ cs', c.derivatives w' = recsDerivatives c.abs.2 w' := by
-  have key := history_eq_elementwise prog hv cs w hwf
-  constructor
-  · rw [← key.1, hrun]; rfl
-  · intro c hc
-    have hcw : c.WF := key.2 cs' w' hrun c hc
-    rw [container_derivatives_eq_scalar]
-    unfold recsDerivatives Cont.abs
-    simp only [toRecs_eq]
-    cases he : c.elems with
-    | nil => exact absurd he hcw.nonempty
-    | cons e es =>
-      simp only [recsOf_cons, List.head?_cons]
-      cases c.history <;> rfl
-
-example : (CInstr.vars 0 [("r", 1), ("c", 2)] [(2 : ℚ), 3]).Valid := by
-  refine ⟨by decide, by simp⟩
-
-example : AllWF ([] : List (Cont ℚ)) := fun _ h => by cases h
-
 /-! ## The rest of the surface: iterators as records, conversions, `Clone`, the container as a
 source, the by-value forms (Model/RecordContainerSurface.lean)
 
@@ -1307,6 +998,474 @@ theorem do_binary_right_assign_eq_elementwise (a b : Cont R) (f dfx dfy : R → 
   cases b.binary a (fun y x => f x y) (fun y x => dfy x y) (fun y x => dfx x y) w with
   | panic k => rfl
   | ok r => simp [Outcome.map, asRecs, toRecs_eq]
+
+/-! ## Shapes and histories through whole programs
+
+What the generator sections "assign forms × pairings × follow-up uses" and "producer → consumer
+pairs" sample, for every program: a container that is the result of any sequence of operations
+— allocating, in place, multiplications, `reset` — is the same container (shape, numbers, tape,
+positions) as the one built element by element, so whatever consumes it next sees the same
+operand. -/
+
+/-- After a two-operand assign form (`binary_left_assign`, `binary_right_assign`, the `do_*`
+    variants) the overwritten container is on a tape exactly when either operand was, and on that
+    operand's tape (the left one's if both were — they are then the same); the one-operand assign
+    form keeps the history.  Shapes are untouched. -/
+theorem assign_history (op : BOp R) (a b c' : Cont R) (w w' : World R) (ha : a.WF) (hb : b.WF) :
+    (a.binaryLeftAssign b op.fns.1 op.fns.2.1 op.fns.2.2 w = .ok (c', w') →
+        c'.history = Cont.pickHistory a.history b.history ∧ c'.shape = a.shape
+          ∧ (c'.history.isSome ↔ (a.history.isSome ∨ b.history.isSome)))
+      ∧ (a.binaryRightAssign b op.fns.1 op.fns.2.1 op.fns.2.2 w = .ok (c', w') →
+        c'.history = Cont.pickHistory a.history b.history ∧ c'.shape = b.shape
+          ∧ (c'.history.isSome ↔ (a.history.isSome ∨ b.history.isSome)))
+      ∧ (∀ (u : UOp R), ((a.unaryAssign u.fns.1 u.fns.2 w).1.history = a.history
+          ∧ (a.unaryAssign u.fns.1 u.fns.2 w).1.shape = a.shape)) := by
+  have hpick : ∀ x y : Option Nat,
+      ((Cont.pickHistory x y).isSome ↔ (x.isSome ∨ y.isSome)) := by
+    intro x y; cases x <;> cases y <;> simp [Cont.pickHistory]
+  refine ⟨?_, ?_, ?_⟩
+  · intro h
+    rw [binaryLeftAssign_eq] at h
+    cases hbin : a.binary b op.fns.1 op.fns.2.1 op.fns.2.2 w with
+    | panic k => rw [hbin] at h; cases h
+    | ok r =>
+      obtain ⟨c0, w0⟩ := r
+      have hspec := binary_ok_spec a b _ _ _ w ha hb c0 w0 hbin
+      rw [hbin] at h
+      simp only [Outcome.map] at h
+      injection h with h; injection h with h1 _; subst h1
+      exact ⟨hspec.2.2.2, rfl, by simp only [hspec.2.2.2]; exact hpick _ _⟩
+  · intro h
+    rw [binaryRightAssign_eq] at h
+    cases hbin : a.binary b op.fns.1 op.fns.2.1 op.fns.2.2 w with
+    | panic k => rw [hbin] at h; cases h
+    | ok r =>
+      obtain ⟨c0, w0⟩ := r
+      have hspec := binary_ok_spec a b _ _ _ w ha hb c0 w0 hbin
+      rw [hbin] at h
+      simp only [Outcome.map] at h
+      injection h with h; injection h with h1 _; subst h1
+      exact ⟨hspec.2.2.2, rfl, by simp only [hspec.2.2.2]; exact hpick _ _⟩
+  · intro u
+    rw [unaryAssign_eq a _ _ w ha.const_zero]
+    exact ⟨(unary_shape a _ _ w).2, rfl⟩
+
+example : (Cont.pickHistory (none : Option Nat) (some 3)).isSome = true := by decide
+
+/-- One instruction of a container program — a constructor, an allocating operator, a
+    multiplication, `reset`, an assign form — run by the container code on well-formed
+    containers gives the containers (shape and records: numbers, tapes, positions), the tapes and
+    the panic that the same instruction gives element by element; and the containers stay well
+    formed. -/
+theorem history_step_eq_elementwise (i : CInstr R) (cs : List (Cont R)) (w : World R)
+    (hwf : AllWF cs) :
+    (i.stepModel cs w).map absState = i.stepSpec (cs.map Cont.abs) w
+      ∧ ∀ cs' w', i.stepModel cs w = .ok (cs', w') → AllWF cs' := by
+  cases i with
+  | vars h shape vals =>
+    simp only [CInstr.stepModel, CInstr.stepSpec]
+    by_cases hbad : vals.length ≠ elements shape ∨ vals.length = 0
+    · rw [if_pos hbad, if_pos hbad]
+      exact ⟨rfl, fun _ _ h => by cases h⟩
+    · rw [if_neg hbad, if_neg hbad]
+      have hlen : vals.length = elements shape := by
+        by_cases h : vals.length = elements shape
+        · exact h
+        · exact absurd (Or.inl h) hbad
+      have hne : vals ≠ [] := fun h => hbad (Or.inr (by rw [h]; rfl))
+      constructor
+      · have key := variables_eq h shape vals w hlen
+        simp only [asRecs, Prod.ext_iff] at key
+        simp only [Outcome.map, absState, List.map_append,
+          List.map_cons, List.map_nil, Cont.abs, ← key.1, ← key.2]
+        simp [Cont.variables]
+      · intro cs' w' h'
+        injection h' with h'; injection h' with h1 _; subst h1
+        exact allWF_append hwf (((container_wf w).1 shape vals hlen hne).2 h)
+  | consts shape vals =>
+    simp only [CInstr.stepModel, CInstr.stepSpec]
+    by_cases hbad : vals.length ≠ elements shape ∨ vals.length = 0
+    · rw [if_pos hbad, if_pos hbad]
+      exact ⟨rfl, fun _ _ h => by cases h⟩
+    · rw [if_neg hbad, if_neg hbad]
+      have hlen : vals.length = elements shape := by
+        by_cases h : vals.length = elements shape
+        · exact h
+        · exact absurd (Or.inl h) hbad
+      have hne : vals ≠ [] := fun h => hbad (Or.inr (by rw [h]; rfl))
+      constructor
+      · simp only [Outcome.map, absState, List.map_append,
+          List.map_cons, List.map_nil, Cont.abs]
+        simp [Cont.constants, toRecs_eq, recsOf, Rec.constant, List.map_map, Function.comp_def]
+      · intro cs' w' h
+        injection h with h; injection h with h1 _; subst h1
+        exact allWF_append hwf ((container_wf w).1 shape vals hlen hne).1
+  | un op a =>
+    simp only [CInstr.stepModel, CInstr.stepSpec, abs_get]
+    cases hc : cs[a]? with
+    | none => exact ⟨rfl, fun _ _ h => by cases h⟩
+    | some c =>
+      have hcw := allWF_get hwf a c hc
+      constructor
+      · have key := unary_eq c op.fns.1 op.fns.2 w
+        simp only [asRecs, Prod.ext_iff] at key
+        simp only [Option.map_some, Outcome.map, absState, List.map_append, List.map_cons,
+          List.map_nil, Cont.abs, uop_container_eq, uop_scalar_fun, ← key.1, ← key.2,
+          (unary_shape c op.fns.1 op.fns.2 w).1]
+      · intro cs' w' h
+        injection h with h; injection h with h1 _; subst h1
+        exact allWF_append hwf ((container_wf w).2.1 op c hcw)
+  | bin op a b =>
+    simp only [CInstr.stepModel, CInstr.stepSpec, abs_get]
+    cases hx : cs[a]? with
+    | none => exact ⟨rfl, fun _ _ h => by cases h⟩
+    | some x =>
+      cases hy : cs[b]? with
+      | none => exact ⟨rfl, fun _ _ h => by cases h⟩
+      | some y =>
+        have hxw := allWF_get hwf a x hx
+        have hyw := allWF_get hwf b y hy
+        simp only [Option.map_some, Cont.abs]
+        by_cases hs : x.shape = y.shape
+        · rw [if_neg (not_not.mpr hs)]
+          have key := binary_eq x y op.fns.1 op.fns.2.1 op.fns.2.2 w hs hxw.nonempty hyw.nonempty
+          rw [bop_container_eq, bop_scalar_fun]
+          cases hbin : x.binary y op.fns.1 op.fns.2.1 op.fns.2.2 w with
+          | panic k =>
+            rw [hbin] at key
+            simp only [Outcome.map] at key
+            rw [← key]
+            exact ⟨rfl, fun _ _ h => by cases h⟩
+          | ok r =>
+            obtain ⟨c0, w0⟩ := r
+            have hspec := binary_ok_spec x y _ _ _ w hxw hyw c0 w0 hbin
+            rw [hbin] at key
+            simp only [Outcome.map, asRecs] at key
+            rw [← key]
+            constructor
+            · simp [Outcome.map, absState, Cont.abs, hspec.2.2.1]
+            · intro cs' w' h
+              simp only [Outcome.map] at h
+              injection h with h; injection h with h1 _; subst h1
+              exact allWF_append hwf hspec.1
+        · rw [if_pos hs, bop_container_eq, binary_shape_mismatch x y _ _ _ w hs]
+          exact ⟨rfl, fun _ _ h => by cases h⟩
+  | matmulT a b =>
+    simp only [CInstr.stepModel, CInstr.stepSpec, abs_get]
+    cases hx : cs[a]? with
+    | none => exact ⟨rfl, fun _ _ h => by cases h⟩
+    | some x =>
+      cases hy : cs[b]? with
+      | none => exact ⟨rfl, fun _ _ h => by cases h⟩
+      | some y =>
+        have hxw := allWF_get hwf a x hx
+        have hyw := allWF_get hwf b y hy
+        simp only [Option.map_some]
+        rw [← matmulTensor_eq_spec x y w hxw hyw]
+        cases hm : x.matmulTensor y w with
+        | panic k => exact ⟨rfl, fun _ _ h => by cases h⟩
+        | ok r =>
+          obtain ⟨c0, w0⟩ := r
+          constructor
+          · simp [Outcome.map, absState]
+          · intro cs' w' h
+            simp only [Outcome.map] at h
+            injection h with h; injection h with h1 _; subst h1
+            exact allWF_append hwf ((container_wf_matmul x y c0 w w0 hxw hyw).1 hm)
+  | matmulM a b =>
+    simp only [CInstr.stepModel, CInstr.stepSpec, abs_get]
+    cases hx : cs[a]? with
+    | none => exact ⟨rfl, fun _ _ h => by cases h⟩
+    | some x =>
+      cases hy : cs[b]? with
+      | none => exact ⟨rfl, fun _ _ h => by cases h⟩
+      | some y =>
+        have hxw := allWF_get hwf a x hx
+        have hyw := allWF_get hwf b y hy
+        simp only [Option.map_some]
+        rw [← matmulMatrix_eq_spec x y w hxw hyw]
+        cases hm : x.matmulMatrix y w with
+        | panic k => exact ⟨rfl, fun _ _ h => by cases h⟩
+        | ok r =>
+          obtain ⟨c0, w0⟩ := r
+          constructor
+          · simp [Outcome.map, absState]
+          · intro cs' w' h
+            simp only [Outcome.map] at h
+            injection h with h; injection h with h1 _; subst h1
+            exact allWF_append hwf ((container_wf_matmul x y c0 w w0 hxw hyw).2 hm)
+  | reset a =>
+    simp only [CInstr.stepModel, CInstr.stepSpec, abs_get]
+    cases hc : cs[a]? with
+    | none => exact ⟨rfl, fun _ _ h => by cases h⟩
+    | some c =>
+      have hcw := allWF_get hwf a c hc
+      constructor
+      · have key := reset_eq c w hcw.length_eq
+        simp only [asRecs, Prod.ext_iff] at key
+        have hshape : (c.reset w).1.shape = c.shape := by
+          unfold Cont.reset; cases c.history <;> rfl
+        simp only [Option.map_some, Outcome.map, absState, List.map_set, Cont.abs, ← key.1,
+          ← key.2, hshape]
+      · intro cs' w' h
+        injection h with h; injection h with h1 _; subst h1
+        exact allWF_set hwf a (reset_wf c w hcw)
+  | unAssign op a =>
+    simp only [CInstr.stepModel, CInstr.stepSpec, abs_get]
+    cases hc : cs[a]? with
+    | none => exact ⟨rfl, fun _ _ h => by cases h⟩
+    | some c =>
+      have hcw := allWF_get hwf a c hc
+      constructor
+      · have key := unary_eq c op.fns.1 op.fns.2 w
+        simp only [asRecs, Prod.ext_iff] at key
+        simp only [Option.map_some]
+        rw [unaryAssign_eq c _ _ w hcw.const_zero]
+        simp only [Outcome.map, absState, List.map_set, Cont.abs,
+          uop_scalar_fun, ← key.1, ← key.2]
+        simp [toRecs_eq]
+      · intro cs' w' h
+        injection h with h; injection h with h1 _; subst h1
+        exact allWF_set hwf a (unaryAssign_wf c _ _ w hcw)
+  | leftAssign op a b =>
+    simp only [CInstr.stepModel, CInstr.stepSpec, abs_get]
+    cases hx : cs[a]? with
+    | none => exact ⟨rfl, fun _ _ h => by cases h⟩
+    | some x =>
+      cases hy : cs[b]? with
+      | none => exact ⟨rfl, fun _ _ h => by cases h⟩
+      | some y =>
+        have hxw := allWF_get hwf a x hx
+        have hyw := allWF_get hwf b y hy
+        simp only [Option.map_some, Cont.abs]
+        rw [binaryLeftAssign_eq]
+        by_cases hs : x.shape = y.shape
+        · rw [if_neg (not_not.mpr hs)]
+          have key := binary_eq x y op.fns.1 op.fns.2.1 op.fns.2.2 w hs hxw.nonempty hyw.nonempty
+          rw [bop_scalar_fun]
+          cases hbin : x.binary y op.fns.1 op.fns.2.1 op.fns.2.2 w with
+          | panic k =>
+            rw [hbin] at key
+            simp only [Outcome.map] at key
+            rw [← key]
+            exact ⟨rfl, fun _ _ h => by cases h⟩
+          | ok r =>
+            obtain ⟨c0, w0⟩ := r
+            have hspec := binary_ok_spec x y _ _ _ w hxw hyw c0 w0 hbin
+            rw [hbin] at key
+            simp only [Outcome.map, asRecs] at key
+            rw [← key]
+            constructor
+            · simp [Outcome.map, absState, Cont.abs, List.map_set, toRecs_eq]
+            · intro cs' w' h
+              simp only [Outcome.map] at h
+              injection h with h; injection h with h1 _; subst h1
+              refine allWF_set hwf a ⟨?_, hspec.1.nonempty, hspec.1.const_zero⟩
+              have := hspec.1.length_eq
+              rw [hspec.2.2.1] at this
+              exact this
+        · rw [if_pos hs, binary_shape_mismatch x y _ _ _ w hs]
+          exact ⟨rfl, fun _ _ h => by cases h⟩
+
+  | rightAssign op a b =>
+    simp only [CInstr.stepModel, CInstr.stepSpec, abs_get]
+    cases hx : cs[a]? with
+    | none => exact ⟨rfl, fun _ _ h => by cases h⟩
+    | some x =>
+      cases hy : cs[b]? with
+      | none => exact ⟨rfl, fun _ _ h => by cases h⟩
+      | some y =>
+        have hxw := allWF_get hwf a x hx
+        have hyw := allWF_get hwf b y hy
+        simp only [Option.map_some, Cont.abs]
+        rw [(do_forms_eq x y id id _ _ _ w).2.2.1]
+        unfold Cont.binaryRightAssign
+        rw [binaryLeftAssign_eq]
+        by_cases hs : x.shape = y.shape
+        · rw [if_neg (not_not.mpr hs)]
+          have key := binary_eq y x (fun v u => op.fns.1 u v) (fun v u => op.fns.2.2 u v)
+            (fun v u => op.fns.2.1 u v) w hs.symm hyw.nonempty hxw.nonempty
+          cases hbin : y.binary x (fun v u => op.fns.1 u v) (fun v u => op.fns.2.2 u v)
+              (fun v u => op.fns.2.1 u v) w with
+          | panic k =>
+            rw [hbin] at key
+            simp only [Outcome.map] at key
+            rw [← key]
+            exact ⟨rfl, fun _ _ h => by cases h⟩
+          | ok r =>
+            obtain ⟨c0, w0⟩ := r
+            have hspec := binary_ok_spec y x _ _ _ w hyw hxw c0 w0 hbin
+            rw [hbin] at key
+            simp only [Outcome.map, asRecs] at key
+            rw [← key]
+            constructor
+            · simp [Outcome.map, absState, Cont.abs, List.map_set, toRecs_eq]
+            · intro cs' w' h
+              simp only [Outcome.map] at h
+              injection h with h; injection h with h1 _; subst h1
+              refine allWF_set hwf b ⟨?_, hspec.1.nonempty, hspec.1.const_zero⟩
+              have := hspec.1.length_eq
+              rw [hspec.2.2.1] at this
+              exact this
+        · have hs' : y.shape ≠ x.shape := fun e => hs e.symm
+          rw [if_pos hs, binary_shape_mismatch y x _ _ _ w hs']
+          exact ⟨rfl, fun _ _ h => by cases h⟩
+  | clone a =>
+    simp only [CInstr.stepModel, CInstr.stepSpec, abs_get]
+    cases hc : cs[a]? with
+    | none => exact ⟨rfl, fun _ _ h => by cases h⟩
+    | some c =>
+      have hcw := allWF_get hwf a c hc
+      have hcl : Cont.cloneFrom c c.clone = c := by
+        rw [(clone_eq c c).1]; exact (clone_eq c c).2.1
+      simp only [Option.map_some]
+      rw [hcl]
+      constructor
+      · simp [Outcome.map, absState]
+      · intro cs' w' h
+        injection h with h; injection h with h1 _; subst h1
+        exact allWF_append hwf hcw
+  | viaRecord a =>
+    simp only [CInstr.stepModel, CInstr.stepSpec, abs_get]
+    cases hc : cs[a]? with
+    | none => exact ⟨rfl, fun _ _ h => by cases h⟩
+    | some c =>
+      have hcw := allWF_get hwf a c hc
+      simp only [Option.map_some, Cont.abs, Cont.intoRecord, Cont.intoRecordRef, toRecs_eq]
+      cases he : c.elems with
+      | nil => exact absurd he hcw.nonempty
+      | cons e es =>
+        constructor
+        · simp [Outcome.map, absState, Cont.abs, Cont.fromRecordRef, Rec.fromExisting, Rec.clone,
+            toRecs_eq, recsOf]
+        · intro cs' w' h
+          simp only [] at h
+          injection h with h; injection h with h1 _; subst h1
+          exact allWF_append hwf (fromRecord_wf c hcw e (by rw [he]; simp))
+  | elem a idx =>
+    simp only [CInstr.stepModel, CInstr.stepSpec, abs_get]
+    cases hc : cs[a]? with
+    | none => exact ⟨rfl, fun _ _ h => by cases h⟩
+    | some c =>
+      have hcw := allWF_get hwf a c hc
+      simp only [Option.map_some, Cont.abs]
+      rw [(get_as_record_eq_scalar c (Cont.position c.shape idx)).2]
+      cases hr : (Cont.position c.shape idx).bind (fun k => c.toRecs[k]?) with
+      | none => exact ⟨rfl, fun _ _ h => by cases h⟩
+      | some r =>
+        constructor
+        · simp [Outcome.map, absState, Cont.abs, Cont.fromRecord, toRecs_eq, recsOf]
+        · intro cs' w' h
+          simp only [] at h
+          injection h with h; injection h with h1 _; subst h1
+          -- the record is an element of `c`
+          cases hp : Cont.position c.shape idx with
+          | none => rw [hp] at hr; cases hr
+          | some k =>
+            rw [hp] at hr
+            simp only [Option.bind_some, toRecs_getElem?] at hr
+            cases hek : c.elems[k]? with
+            | none => rw [hek] at hr; cases hr
+            | some e =>
+              rw [hek] at hr
+              simp only [Option.map_some, Option.some.injEq, Rec.fromExisting] at hr
+              subst hr
+              exact allWF_append hwf (fromRecord_wf c hcw e (List.mem_of_getElem? hek))
+  | swap a i j =>
+    simp only [CInstr.stepModel, CInstr.stepSpec, abs_get]
+    cases hc : cs[a]? with
+    | none => exact ⟨rfl, fun _ _ h => by cases h⟩
+    | some c =>
+      have hcw := allWF_get hwf a c hc
+      simp only [Option.map_some, Cont.abs]
+      cases hpi : Cont.position c.shape i with
+      | none => exact ⟨rfl, fun _ _ h => by cases h⟩
+      | some pi =>
+        cases hpj : Cont.position c.shape j with
+        | none => exact ⟨rfl, fun _ _ h => by cases h⟩
+        | some pj =>
+          have key := swap_elems_eq_scalar c pi pj
+          constructor
+          · simp [Outcome.map, absState, Cont.abs, List.map_set, key.1, key.2.1]
+          · intro cs' w' h
+            simp only [] at h
+            injection h with h; injection h with h1 _; subst h1
+            exact allWF_set hwf a (swapElems_wf c pi pj hcw)
+  | fromIter a =>
+    simp only [CInstr.stepModel, CInstr.stepSpec, abs_get]
+    cases hc : cs[a]? with
+    | none => exact ⟨rfl, fun _ _ h => by cases h⟩
+    | some c =>
+      have hcw := allWF_get hwf a c hc
+      simp only [Option.map_some, Cont.abs]
+      rw [fromIterTensor_self c hcw]
+      have hl : c.toRecs.length = c.elems.length := by simp [Cont.toRecs]
+      rw [hl]
+      by_cases hv : validateDimensions c.shape c.elems.length = none
+      · rw [if_pos hv, if_pos hv]
+        constructor
+        · simp [Outcome.map, absState, Cont.abs]
+        · intro cs' w' h
+          simp only [] at h
+          injection h with h; injection h with h1 _; subst h1
+          exact allWF_append hwf hcw
+      · rw [if_neg hv, if_neg hv]
+        exact ⟨rfl, fun _ _ h => by cases h⟩
+
+/-- **Histories through programs.**  Any program of container operations — constructors,
+    allocating operators, both multiplications, `reset`, the in-place forms, each consuming the
+    results of earlier ones — run on well-formed containers ends with the containers, tapes and
+    panic the same program ends with when every container is a list of scalar records and every
+    operation is done element by element.  In particular each result's history is `Some` exactly
+    when the element-by-element records are on a tape. -/
+theorem history_eq_elementwise (prog : List (CInstr R))
+    (cs : List (Cont R)) (w : World R) (hwf : AllWF cs) :
+    (runModel prog cs w).map absState = runSpec prog (cs.map Cont.abs) w
+      ∧ ∀ cs' w', runModel prog cs w = .ok (cs', w') → AllWF cs' := by
+  induction prog generalizing cs w with
+  | nil =>
+    refine ⟨rfl, ?_⟩
+    intro cs' w' h
+    simp only [runModel] at h
+    injection h with h; injection h with h1 _; subst h1
+    exact hwf
+  | cons i rest ih =>
+    have hstep := history_step_eq_elementwise i cs w hwf
+    simp only [runModel, runSpec]
+    rw [← hstep.1]
+    cases hm : i.stepModel cs w with
+    | panic k => exact ⟨rfl, fun _ _ h => by cases h⟩
+    | ok r =>
+      obtain ⟨cs1, w1⟩ := r
+      simp only [Outcome.map, absState]
+      exact ih cs1 w1 (hstep.2 cs1 w1 hm)
+
+/-- **Derivatives after programs.**  When a program of container operations succeeds, the same
+    program on scalar records succeeds with the same records and tapes, and `derivatives()` of
+    every container in the final state — results of allocating operations, of multiplications,
+    containers overwritten in place or `reset` — is the reverse sweep of its element-by-element
+    records on the final tapes. -/
+theorem program_derivatives_eq_elementwise (prog : List (CInstr R))
+    (cs : List (Cont R)) (w : World R) (hwf : AllWF cs) (cs' : List (Cont R)) (w' : World R)
+    (hrun : runModel prog cs w = .ok (cs', w')) :
+    runSpec prog (cs.map Cont.abs) w = .ok (cs'.map Cont.abs, w')
+      ∧ ∀ c ∈ cs', c.derivatives w' = recsDerivatives c.abs.2 w' := by
+  have key := history_eq_elementwise prog cs w hwf
+  constructor
+  · rw [← key.1, hrun]; rfl
+  · intro c hc
+    have hcw : c.WF := key.2 cs' w' hrun c hc
+    rw [container_derivatives_eq_scalar]
+    unfold recsDerivatives Cont.abs
+    simp only [toRecs_eq]
+    cases he : c.elems with
+    | nil => exact absurd he hcw.nonempty
+    | cons e es =>
+      simp only [recsOf_cons, List.head?_cons]
+      cases c.history <;> rfl
+
+
+example : AllWF ([] : List (Cont ℚ)) := fun _ h => by cases h
 
 /-! ### the pinned commit: what the repairs change (kernel evaluation on concrete witnesses) -/
 
